@@ -50,6 +50,13 @@ except:
     Decimal = type(None)
 
 #%%
+def _comparand(x):
+    # a python integer beyond the range of doubles compares with any stored value like an infinity of its sign
+    # (numpy would try to convert it: OverflowError: int too large to convert to float)
+    if type(x) is int and abs(x) >= 2**1023:
+        return float('inf') if x > 0 else -float('inf')
+    return x
+
 class Fxp():
     '''
     Numerical Fractional Fixed-Point object (base 2).
@@ -1650,32 +1657,32 @@ class Fxp():
     def __lt__(self, x):
         if isinstance(x, Fxp):
             x = x.get_val()
-        return self.get_val() < x
+        return self.get_val() < _comparand(x)
 
     def __le__(self, x):
         if isinstance(x, Fxp):
             x = x.get_val()
-        return self.get_val() <= x
+        return self.get_val() <= _comparand(x)
 
     def __eq__(self, x):
         if isinstance(x, Fxp):
             x = x.get_val()
-        return self.get_val() == x
+        return self.get_val() == _comparand(x)
 
     def __ne__(self, x):
         if isinstance(x, Fxp):
             x = x.get_val()
-        return self.get_val() != x
+        return self.get_val() != _comparand(x)
 
     def __gt__(self, x):
         if isinstance(x, Fxp):
             x = x.get_val()
-        return self.get_val() > x
+        return self.get_val() > _comparand(x)
 
     def __ge__(self, x):
         if isinstance(x, Fxp):
             x = x.get_val()
-        return self.get_val() >= x
+        return self.get_val() >= _comparand(x)
 
     # indexation
     def __getitem__(self, index):
